@@ -1,10 +1,10 @@
 (* C20 — Numerical and container helpers of stockpyl/helpers.py do exactly what they document.
-   Statements only; every proof is [exact <lemma of Alg/Helpers_*_proofs.v>].
+   Statements only; every proof is [exact <lemma of Alg/Helpers_*_proofs.v>] (Irwin-Hall part at the end of the file: Alg/IrwinHall_proofs.v,
+   Alg/IrwinHall_model_proofs.v, 13 theorems over R with the real-number axioms of the standard library).
    Model: Alg/Helpers.v (exact rationals; Python values = [pv], dict = insertion-ordered association list with
    pairwise different keys, exceptions = [Err kind]).  Every theorem is for all inputs of the stated shape.
    Not theorems (correspondence + Python oracle only, see c20.claim.json):
-   replace_dict_numeric_string_keys, replace_dict_null_keys, nearest_dict_value, the identity
-   "Irwin-Hall closed form = cdf of the sum of uniforms" (kept as an oracle identity; tests below). *)
+   replace_dict_numeric_string_keys, replace_dict_null_keys, nearest_dict_value. *)
 From Coq Require Import String Permutation Sorted.
 From SV Require Import Base.Qx Alg.Helpers Alg.Helpers_proofs.
 Import ListNotations.
